@@ -411,9 +411,8 @@ int parsec_cmd_line_parse(parsec_cmd_line_t *cmd, bool ignore_unknown,
                                 fprintf(stderr, "Type '%s --parsec-help' for usage.\n",
                                         cmd->lcl_argv[0]);
                             }
-                            if (NULL != param->clp_argv) {
-                                parsec_argv_free(param->clp_argv);
-                            }
+                            /* the parameters saved so far (clp_argv) are
+                               released by the destructor of param */
                             PARSEC_OBJ_RELEASE(param);
                             printed_error = true;
                             goto error;
